@@ -9,7 +9,12 @@ FILES = ["zz_verif_common_test.go", "zz_verif_c16_test.go"]
 
 
 def classify(rec):
-    return None  # no known findings for C16
+    """Narrow key of the one genuine defect found for C16 (fixed in /repo, so it suppresses nothing)."""
+    want = rec.get("want") or []
+    if (str(rec.get("how", "")).startswith("history-dependent") and (rec.get("got") or {}).get("k") == "id"
+            and want and all(o.get("k") in ("none", "err") for o in want)):
+        return "stale-clientid-after-reconfiguration"
+    return None
 
 
 def replay_vectors(ctx, vectors):
@@ -52,8 +57,9 @@ def run(ctx):
     rows, summ = replay_vectors(ctx, sel)
     for r in rows:
         if r.get("kind") == "bad":
-            ctx.disagreement(classify(r), r, "ClientID outcome %s not admitted by spec %s for %s" % (
-                json.dumps(r["got"]), json.dumps(r["want"]), r["concrete"]))
+            ctx.disagreement(classify(r), r, "ClientID outcome %s not admitted by spec %s for %s%s" % (
+                json.dumps(r["got"]), json.dumps(r["want"]), r["concrete"],
+                (" [" + r["how"] + "]") if str(r.get("how", "")).startswith("history-dependent") else ""))
     flaky = sum(1 for r in rows if r.get("kind") == "flaky")
     skipped = sum(1 for r in rows if r.get("kind") == "skip")
     # Direction B.
@@ -74,6 +80,7 @@ def run(ctx):
         "trace_lines": len(trows), "trace_lines_rejected": len(bad),
         "flaky": flaky, "skipped": skipped, "live_server_passes": summ.get("passes"),
         "reconfigurations": summ.get("reconfigurations"),
+        "same_config_reconfigurations": summ.get("same_config_reconfigurations"),
         "exhaustive": True, "samples": samples,
     }
     if skipped > summ["n"] // 10:
@@ -86,6 +93,20 @@ def run(ctx):
 def replay(ctx, path):
     rec = json.load(open(path))["record"]
     vec = {"in": rec["in"], "out": rec.get("want") or [rec.get("out")]}
+    if rec.get("history"):
+        # A history-dependent record: replay the stored history on a fresh server.
+        hp = ctx.path("c16_history.json")
+        json.dump({"history": rec["history"], "want": vec["out"]}, open(hp, "w"))
+        vin, vout = ctx.path("c16_in.ndjson"), ctx.path("c16_out.ndjson")
+        vlib.write_ndjson(vin, [vec])
+        rc, out = ctx.go_test(PKG, FILES, "^TestZZVerifC16Replay$", env={"VERIF_IN": vin, "VERIF_OUT": vout, "VERIF_C16_HISTORY": hp})
+        rows = vlib.read_ndjson(vout)
+        if rc != 0 or not rows:
+            raise vlib.Inconclusive("C16 history replay did not complete:\n" + out[-3000:])
+        bad = [r for r in rows if r.get("kind") == "bad"]
+        print(json.dumps({"expected": vec["out"], "history_steps": len(rec["history"]),
+                          "observed": [b["got"] for b in bad] or "admissible"}, indent=1))
+        return 1 if bad else 0
     rows, summ = replay_vectors(ctx, [vec])
     bad = [r for r in rows if r.get("kind") == "bad"]
     print(json.dumps({"expected": vec["out"], "observed": [b["got"] for b in bad] or "admissible"}, indent=1))
